@@ -2,6 +2,7 @@ package storecheck
 
 import (
 	"fmt"
+	"os"
 	"reflect"
 	"sort"
 	"strings"
@@ -19,6 +20,8 @@ type RunCfg struct {
 	Props            map[string]bool // observations of these properties are reported
 	Differential     bool
 	PredictAdmission bool
+	// Script, when set, replaces the generator by a fixed operation list.
+	Script []Op
 	// AfterStep lets a property-specific check add probes (may be nil).
 	AfterStep func(rs *RunState, op Op, results []Res)
 }
@@ -104,6 +107,9 @@ func (rs *RunState) observe(i int) error {
 
 // RunSequence executes one generated operation sequence.
 func RunSequence(c *vlib.Ctx, r *vlib.Rand, cfg RunCfg) {
+	if only := os.Getenv("VERIF_ONLY"); only != "" && only != cfg.Label {
+		return
+	}
 	clock := vlib.NewVClock(vlib.Epoch)
 	rs := &RunState{C: c, Cfg: cfg, Clock: clock}
 	dir := c.Scratch()
@@ -131,8 +137,16 @@ func RunSequence(c *vlib.Ctx, r *vlib.Rand, cfg RunCfg) {
 		}
 	}
 	g := NewGen(r, cfg.Gen)
+	if cfg.Script != nil {
+		cfg.Steps = len(cfg.Script)
+	}
 	for step := 0; step < cfg.Steps && !rs.Stop; step++ {
-		op := g.Next(rs.Snaps[0], rs.Actors[0], clock.Now())
+		var op Op
+		if cfg.Script != nil {
+			op = cfg.Script[step]
+		} else {
+			op = g.Next(rs.Snaps[0], rs.Actors[0], clock.Now())
+		}
 		results := make([]Res, len(rs.Actors))
 		prev := make([]vlib.Snapshot, len(rs.Actors))
 		copy(prev, rs.Snaps)
@@ -194,13 +208,27 @@ func RunSequence(c *vlib.Ctx, r *vlib.Rand, cfg RunCfg) {
 			break
 		}
 		if cfg.Differential && len(rs.Actors) == 2 {
-			if o := compareBackends(rs, op, results); o != nil {
+			o := compareBackends(rs, op, results)
+			if o != nil && op.Kind == KEnqueue && cfg.Store.MaxDepth > 0 && cfg.Store.DropPolicy == "drop_oldest" && prev[0].Active() > cfg.Store.MaxDepth {
+				// single Enqueue on a queue whose active count was lifted above max_depth
+				// (operator requeue/resume): one input class, whatever way it shows.
+				o.Sig = vlib.Signature{"class": "over_depth_enqueue", "backend": o.Sig["backend"], "op": "enqueue", "policy": "drop_oldest"}
+			}
+			if o != nil {
 				rs.report(*o)
 				rs.Stop = true // after a divergence further comparison is meaningless
 			}
 		}
 		if cfg.AfterStep != nil {
 			cfg.AfterStep(rs, op, results)
+		}
+		if os.Getenv("VERIF_DEBUG") != "" {
+			fmt.Printf("STEP %d %s\n", step, vlib.JSON(entry))
+			for i, a := range rs.Actors {
+				for _, id := range rs.Snaps[i].IDs() {
+					fmt.Printf("   %s %s\n", a.H.Backend, rowBrief(rs.Snaps[i][id]))
+				}
+			}
 		}
 	}
 	if len(rs.Trace) > 0 {
